@@ -761,7 +761,8 @@ class Session:
         for i, (n, v) in enumerate(zip(names, r)):
             key = str(n)
             if key in d:
-                key = f'{getattr(n, "table", None) or ""}.{key}'
+                t = getattr(n, 'table', None)
+                key = f'{t}.{key}' if t else f'{key}#{i}'   # (unaliased expressions: MySQL would name them by their text)
             d[key] = self._out_val(v, deckinds[i] if deckinds else False)
         return d
 
